@@ -1149,7 +1149,8 @@ void Circuit::removeConstSelectMuxes(Subnet &subnet)
 					HCL_ASSERT(constNode->getValue().size() < 64);
 					std::uint64_t selDefined = constNode->getValue().extractNonStraddling(sim::DefaultConfig::DEFINED, 0, constNode->getValue().size());
 					std::uint64_t selValue = constNode->getValue().extractNonStraddling(sim::DefaultConfig::VALUE, 0, constNode->getValue().size());
-					if ((selDefined ^ (~0ull >> (64 - constNode->getValue().size()))) == 0) {
+					// a selector value that addresses no input leaves the mux in place (it evaluates to undefined)
+					if ((selDefined ^ (~0ull >> (64 - constNode->getValue().size()))) == 0 && 1+selValue < muxNode->getNumInputPorts()) {
 						dbg::log(dbg::LogMessage(muxNode->getGroup()) << dbg::LogMessage::LOG_INFO << dbg::LogMessage::LOG_POSTPROCESSING << "Removing mux " << muxNode << " because its selector is constant and defined.");
 						muxNode->bypassOutputToInput(0, 1+selValue);
 					}
